@@ -590,3 +590,16 @@ _upd('C05', text_add=('Imported: Lexer.get_lexer_token hands out exactly the tok
 _upd('C03', text_add='Imported with the lexer-state contracts: Lexer.get_lexer_token (ply\'s next token, asked once, independent of the comment switches).')
 
 NOT_APPLICABLE = {}
+
+
+# ---- round 8 additions (appended to the level texts)
+_ROUND8 = {'C19': " Round 8 (E1, contracts/extractor.py): what each value-building rule hands to the dispatcher -- LiteralEval evaluates exactly the text of each chunk of its one walk call (symbolic texts, literal_eval external), GroupAsList keeps every value in order, the falsy ones included, unary minus / plus of a Number operand for every integer, RawBoolean, Raw, the token handler's fragment (finite scenarios: chunk / item lists of length 0..3).  Known finding F31: object literals nested about 130 levels and more end in RecursionError.", 'C12': " Round 8 (E1, contracts/errors.py): Parser._raise_syntax_error for every combination of missing neighbours (8 cases: the library's syntax error, the lexer asked exactly once, every existing token formatted once, in order), Lexer.t_error (handlers run first and in order, a raising handler ends it, current token missing / present; pre-condition from ply: the error token's text is not empty), Lexer.t_regex_error, Lexer.next.", 'C07': ' Round 8: Resolve / Literal / Comment.__call__ (contracts/ruletypes.py: the handler registered for THIS rule is called exactly once with (dispatcher, node), its answer returned unchanged; Resolve refuses a non-Identifier before any lookup); a contract stated for an instance of a subclass is verified against the method that runs for that instance (an override added in the subclass is examined, not the base-class text); scoping programs with named function expressions and catch clauses at program level.  Known finding F30: the name of a named function expression is declared in the enclosing scope.', 'C01': " Round 8 (E1, contracts/corehandlers.py): for ALL neighbour texts layout_handler_space_optional_pretty / _space_minimum emit one implied space exactly when the boundary pair (last character before, first character after) is matched by required_space (an uninterpreted predicate here; the pattern itself is decided over all code points by class.required_space_*), the header / assignment-operator cases included; the character handlers print the node's own ';' '{' '}' with its position.  Known finding F32: get / set in front of in / instanceof.", 'C02': " Round 8 (E1, contracts/corehandlers.py): for ALL neighbour texts layout_handler_space_minimum emits one implied space exactly when the boundary pair is matched by required_space (uninterpreted; the pattern is decided by class.required_space_*), layout_handler_semicolon_optional prints the node's ';' exactly when a non-empty text follows.  Known finding F32m: get / set in front of in / instanceof.", 'C20': ' Round 8: the layout handlers of handlers/core.py under contract for all neighbour texts (contracts/corehandlers.py), imported through the shared printer obligations.', 'C17': ' Round 8: the C-locale rebuild obligation runs the real entry point (python -m calmjs.parse.parsers.optimize), not a call of the function it is expected to make.'}
+for _k, _t in _ROUND8.items():
+    if _t not in CHECKS[_k]['text']:
+        CHECKS[_k]['text'] += _t
+CHECKS['C19']['engine'] = 'E2 tables + E1 pyvc + E4'
+CHECKS['C19']['technique'] += '; E1 contracts (z3) on the value-building rules: LiteralEval, GroupAsList, unary sign, RawBoolean, Raw, token handler'
+CHECKS['C19']['note'] += ' Known finding F31 (recursion limit at about 130 nested objects).'
+CHECKS['C07']['note'] += ' Known finding F30 (named function expression declared in the enclosing scope).'
+CHECKS['C01']['note'] += ' Known finding F32 (get / set before in / instanceof).'
+CHECKS['C02']['note'] += ' Known finding F32m (get / set before in / instanceof).'
